@@ -262,7 +262,7 @@ def base_documents():
                                            tags=[M.tagline(['@o'])], outline=True)]))
     docs.append(M.feature('f', [M.background('', [s('fb')]),
                                 M.scenario('s0', [s('g0')]),
-                                M.rule('r1', [M.background('', [s('rb')]), M.scenario('s1', [s('g1')], tags=[M.tagline(['@s1'])]), M.scenario('s2', [])],
+                                M.rule('r1', [M.background('', [s('rb')]), M.scenario('s1', [s('g1')], tags=[M.tagline(['@s1'])]), M.scenario('s2', [s('g2', role='when')])],
                                        tags=[M.tagline(['@r1'])], desc=[T('    rd')]),
                                 M.rule('r2', [M.scenario('s3', [s('g3', arg=M.doc(['x'], delimiter='```'))])], pre=[C('# before rule'), B('')]),
                                 M.rule('r3', [])],
@@ -276,6 +276,22 @@ def base_documents():
     docs.append(M.feature('f', [M.scenario('', [], desc=[B(''), B('   '), T('text'), B(' '), T('more  '), B('')])], desc=[B(''), C('# c1'), C('# c2')]))
     docs.append(M.feature('f', [M.scenario('s', [s('g', arg=M.table([['a'], {'cells': ['b'], 'pre': [C('# in table'), B('')]}])), s('h', pre=[B(''), C('#c')])],
                                            tags=[M.tagline(['@a'], trailing=' #comment'), M.tagline(['@b', '@c'], sep='  \t')])]))
+    # identical row text at different indentation / in different tables (anything cached by line text shows here)
+    docs.append(M.feature('f', [M.scenario('s1', [s('g', arg=M.table([['a', 'b'], ['a', 'b']]))]),
+                                M.scenario('o <a>', [s('h <a>', arg=M.table([['a', 'b']]))], [M.examples('', [['a', 'b'], ['a', 'b']])], outline=True),
+                                M.rule('r', [M.background('', [s('rb', arg=M.table([['a', 'b']]))]), M.scenario('s2', [s('g', arg=M.table([['a', 'b'], ['b', 'a']]))])])]))
+    # a doc string followed, later in the same document, by deeply indented descriptions and by another doc string of the other kind
+    docs.append(M.feature('f', [M.scenario('s1', [s('g', arg=M.doc(['x', '\\"\\"\\"', '\\`\\`\\`']))], desc=[T('      deep one')]),
+                                M.scenario('s2', [s('h', arg=M.doc(['\\`\\`\\`', '\\"\\"\\"', 'y'], delimiter='```'))], desc=[T('          deeper two'), T(' shallow')]),
+                                M.rule('r', [M.scenario('o', [s('i', arg=M.doc(['z']))], [M.examples('e', [['a'], ['1']], desc=[T('            deepest')])], outline=True)],
+                                       desc=[T('        rule desc')])]))
+    # backgrounds + outline with two tables of two rows (ids of background pickle steps, per-row state)
+    docs.append(M.feature('f', [M.background('', [s('b1'), s('b2', role='and')]),
+                                M.scenario('o <a> <b>', [s('a <a>', role='and'), s('w <b>', role='when'), s('c', role='but')],
+                                           [M.examples('e1', [['a', 'b'], ['1', '2'], ['3', '4']], tags=[M.tagline(['@e1'])]),
+                                            M.examples('e2', [['b', 'a'], ['1', '2'], ['3', '4']])], tags=[M.tagline(['@o'])], outline=True),
+                                M.rule('r', [M.background('', [s('rb', role='and')]),
+                                             M.scenario('o2', [s('x', role='but')], [M.examples('', [['a'], ['1'], ['2']])], outline=True)])]))
     return docs
 
 
